@@ -31,119 +31,159 @@ def is_field_of(t, leaf, chain):
     return l == leaf and [(v or '', i) for v, i in path] == [(v or '', i) for v, i in chain]
 
 
-def run(ctx, prog):
-    A = Auditor(ctx, prog)
+def rel_path(t, root):
+    """t is a chain of field/ref/deref projections over the term `root`: [(variant, idx), ...] else None"""
+    path = []
+    while isinstance(t, tuple):
+        if t == root:
+            return list(reversed(path))
+        if t[0] in ('ref', 'deref'):
+            t = t[1]
+        elif t[0] == 'field':
+            path.append((t[3] or '', t[2]))
+            t = t[1]
+        else:
+            return None
+    return None
+
+
+def item_requirements(A, prog, label, paths, okp, sig_of, is_pay, item_of):
+    """requirements on a JwsValidationItem built from (received payload, received signature record).
+    sig_of(path) -> term of the signature record; is_pay(term) -> the term is the received payload; item_of(path) -> item value"""
     S = lambda name: fidx(prog, 'JwsSignature', name)   # noqa
     I = lambda name: fidx(prog, 'JwsValidationItem', name)   # noqa
-
-    # ------------------------------------------------------------------------------------------------ decode_signature
-    f = prog.one(r'decoder::<impl at [^>]*>::decode_signature$')
-    paths, ex = A.paths(f)
-    okp = [p for p in paths if p.kind == 'return' and p.is_ok()]
-    if not okp:
-        raise Refuse('decode_signature has no Ok path')
     prot = [('', S('protected')), ('Some', 0)]
     sig = [('', S('signature'))]
-    hdr = [('', S('header'))]
+    hdr = ('', S('header'))
+
+    def sfield(p, t, chain):
+        return rel_path(strip(t), sig_of(p)) == chain
 
     def item_field(p, name):
-        it = p.payload()
+        it = item_of(p)
         if not (isinstance(it, VAgg) and len(it.fields) == 4):
-            raise Refuse('decode_signature returns %r' % (it,))
+            raise Refuse('%s returns %r' % (label, it))
         return p.term(it.fields[I(name)])
 
-    def protected_header_term_ok(t):
+    def mentions_sig_field(p, t, first):
+        root = sig_of(p)
+        for s in subterms(t):
+            if isinstance(s, tuple) and s and s[0] == 'field':
+                rp = rel_path(s, root)
+                if rp and rp[0] == first:
+                    return True
+        return False
+
+    def mentions_input(p, t):
+        root = sig_of(p)
+        return any(s == root or (isinstance(s, tuple) and len(s) > 0 and is_pay(s)) for s in subterms(t))
+
+    def protected_header_term_ok(p, t):
         """t denotes the header parsed from the received protected segment (or nothing else)"""
         js = apps(t, r'decode_b64_json$')
-        return bool(js) and all(is_field_of(j[2][0], 'jws_signature', prot) for j in js) and not mentions_field(t, 'jws_signature', hdr[0])
+        return bool(js) and all(sfield(p, j[2][0], prot) for j in js) and not mentions_sig_field(p, t, hdr)
 
-    def mentions_field(t, leaf, first):
-        for s in subterms(t):
-            fp = field_path(s) if isinstance(s, tuple) and s and s[0] == 'field' else None
-            if fp and fp[0] == leaf and fp[1] and (fp[1][0][0] or '', fp[1][0][1]) == first:
-                return True
-        return False
+    def prot_absent(p):
+        return p.took(('field', sig_of(p), S('protected'), ''), 'None')
 
     def r_signing_input(p):
         t = strip(item_field(p, 'signing_input'))
         if not (isinstance(t, tuple) and t[0] == 'app' and re.search(r'create_message$', t[1]) and len(t[2]) == 2):
             return 'signing input is not create_message(..): %s' % term_str(t)[:200]
         a0, a1 = strip(t[2][0]), strip(t[2][1])
-        if not (isinstance(a1, tuple) and a1 == ('leaf', 'payload')):
+        if not is_pay(a1):
             return 'signing input payload part is not the received payload: %s' % term_str(a1)[:200]
-        if is_field_of(a0, 'jws_signature', prot):
+        if sfield(p, a0, prot):
             return None
-        # protected absent: empty default
-        if p.took(('field', ('leaf', 'jws_signature'), S('protected'), ''), 'None') and not mentions(a0, r'jws_signature|payload'):
+        if prot_absent(p) and not mentions_input(p, a0):
             return None
         return 'signing input header part is not the received protected segment: %s' % term_str(a0)[:200]
-    A.require('decode_signature/signing-input=received-protected.payload', okp, r_signing_input, replay=REPLAY)
+    A.require(label + '/signing-input=received-protected.payload', okp, r_signing_input, replay=REPLAY)
 
     def r_signature(p):
         t = strip(item_field(p, 'decoded_signature'))
         if isinstance(t, tuple) and t[0] == 'field' and t[3] == 'Ok':
             a = t[1]
-            if isinstance(a, tuple) and a[0] == 'app' and re.search(r'decode_b64$', a[1]) and is_field_of(a[2][0], 'jws_signature', sig):
+            if isinstance(a, tuple) and a[0] == 'app' and re.search(r'decode_b64$', a[1]) and sfield(p, a[2][0], sig):
                 return None
         return 'decoded signature is not b64url-decode(received signature): %s' % term_str(t)[:200]
-    A.require('decode_signature/signature=decode(received-signature)', okp, r_signature, replay=REPLAY)
+    A.require(label + '/signature=decode(received-signature)', okp, r_signature, replay=REPLAY)
 
     def r_claims(p):
-        it = p.payload()
+        it = item_of(p)
         c = it.fields[I('claims')]
         if not isinstance(c, VAgg) or c.variant not in ('Owned', 'Borrowed'):
-            return 'claims is not a Cow with a definite variant: %r' % (c,)
+            return 'claims is not a Cow built from the payload on this path: %s' % term_str(p.term(c))[:160]
         inner = strip(p.term(c.fields[0]))
-        b64calls = p.find_calls(r'JwsHeader::b64$')
-        flags = [bc for bc in b64calls if protected_header_term_ok(bc.args[0])]
-        foreign = [bc for bc in b64calls if not protected_header_term_ok(bc.args[0])]
+        # the flag is read through JwsHeader::b64 directly or through the extract_b64 helper of jwu
+        b64calls = p.find_calls(r'JwsHeader::b64$|(^|::)extract_b64$')
+        flags = [bc for bc in b64calls if protected_header_term_ok(p, bc.args[0])]
+        foreign = [bc for bc in b64calls if not protected_header_term_ok(p, bc.args[0]) and mentions_input(p, bc.args[0])]
         if foreign:
             return 'b64 read from something that is not the parsed protected header: %s' % term_str(foreign[0].args[0])[:200]
-        prot_absent = p.took(('field', ('leaf', 'jws_signature'), S('protected'), ''), 'None')
+
+        def flag_false(bc):
+            if bc.name.endswith('extract_b64'):
+                return p.took(bc.ret, 'false')
+            return p.took(bc, 'Some') and p.took(('field', bc.ret, 0, 'Some'), 'false')
         if c.variant == 'Borrowed':
-            if inner != ('leaf', 'payload'):
+            if not is_pay(inner):
                 return 'unencoded claims are not the received payload: %s' % term_str(inner)[:160]
-            for bc in flags:
-                if p.took(bc, 'Some') and p.took(('field', bc.ret, 0, 'Some'), 'false'):
-                    return None
+            if any(flag_false(bc) for bc in flags):
+                return None
             return 'payload used unencoded although protected b64 is not Some(false)'
-        # Owned: must be decode_b64(payload).Ok and the flag must not be Some(false)
         ok = (isinstance(inner, tuple) and inner[0] == 'field' and inner[3] == 'Ok' and isinstance(inner[1], tuple)
-              and inner[1][0] == 'app' and re.search(r'decode_b64$', inner[1][1]) and strip(inner[1][2][0]) == ('leaf', 'payload'))
+              and inner[1][0] == 'app' and re.search(r'decode_b64$', inner[1][1]) and is_pay(strip(inner[1][2][0])))
         if not ok:
             return 'decoded claims are not b64url-decode(received payload): %s' % term_str(inner)[:200]
-        for bc in flags:
-            if p.took(bc, 'Some') and p.took(('field', bc.ret, 0, 'Some'), 'false'):
-                return 'payload was base64-decoded although protected b64=false'
-        if not flags and not prot_absent:
+        if any(flag_false(bc) for bc in flags):
+            return 'payload was base64-decoded although protected b64=false'
+        if not flags and not prot_absent(p):
             return 'b64 of the protected header never consulted'
         return None
-    A.require('decode_signature/claims=decode(payload)-unless-protected-b64-false', okp, r_claims, replay=REPLAY)
+    A.require(label + '/claims=decode(payload)-unless-protected-b64-false', okp, r_claims, replay=REPLAY)
 
     def r_validated(p):
         for c in p.find_calls(r'validate_jws_headers$'):
             if not p.took(c, 'Ok'):
                 continue
             a0, a1 = c.args
-            a0_ok = protected_header_term_ok(a0) or (p.took(('field', ('leaf', 'jws_signature'), S('protected'), ''), 'None') and not mentions(a0, 'jws_signature'))
-            a1_ok = (mentions_field(a1, 'jws_signature', hdr[0]) and not apps(a1, r'decode_b64_json$')) or \
-                (p.took(('field', ('leaf', 'jws_signature'), S('header'), ''), 'None') and not mentions(a1, 'jws_signature'))
+            a0_ok = protected_header_term_ok(p, a0) or (prot_absent(p) and not mentions_input(p, a0))
+            a1_ok = (mentions_sig_field(p, a1, hdr) and not apps(a1, r'decode_b64_json$')) or \
+                (p.took(('field', sig_of(p), S('header'), ''), 'None') and not mentions_input(p, a1))
             if a0_ok and a1_ok:
                 return None
         return 'accepted without validate_jws_headers(protected, unprotected) returning Ok'
-    A.require('decode_signature/header-policy-enforced', okp, r_validated, replay=REPLAY)
+    A.require(label + '/header-policy-enforced', okp, r_validated, replay=REPLAY)
 
     def r_headers(p):
         t = strip(item_field(p, 'headers'))
         if isinstance(t, tuple) and t[0] == 'field' and t[3] == 'Ok' and isinstance(t[1], tuple) and t[1][0] == 'app' \
                 and re.search(r'DecodedHeaders::new$', t[1][1]):
             a0, a1 = t[1][2]
-            if (protected_header_term_ok(a0) or not mentions(a0, 'jws_signature') or is_field_of(a0, 'jws_signature', [('', S('protected'))]) is False) \
-                    and mentions_field(a1, 'jws_signature', hdr[0]) and not mentions_field(a0, 'jws_signature', hdr[0]):
+            if (protected_header_term_ok(p, a0) or not mentions_input(p, a0)) \
+                    and mentions_sig_field(p, a1, hdr) and not mentions_sig_field(p, a0, hdr):
                 return None
         return 'item headers are not DecodedHeaders::new(parsed protected, received unprotected): %s' % term_str(t)[:200]
-    A.require('decode_signature/headers-kept-apart', okp, r_headers, replay=REPLAY)
-    A.no_panic('decode_signature/no-panic', paths, replay=REPLAY)
+    A.require(label + '/headers-kept-apart', okp, r_headers, replay=REPLAY)
+    A.no_panic(label + '/no-panic', paths, replay=REPLAY)
+
+
+def run(ctx, prog):
+    A = Auditor(ctx, prog)
+    S = lambda name: fidx(prog, 'JwsSignature', name)   # noqa
+    I = lambda name: fidx(prog, 'JwsValidationItem', name)   # noqa
+
+    # ------------------------------------------------------------------------------------------------ decode_signature
+    # helpers named decode_signature* are inlined, so splitting the function does not blind the audit
+    DS_INLINE = r'decoder::<impl at [^>]*>::decode_signature\w+$|(^|::)extract_b64$'
+    f = prog.one(r'decoder::<impl at [^>]*>::decode_signature$')
+    paths, ex = A.paths(f, inline=DS_INLINE)
+    okp = [p for p in paths if p.kind == 'return' and p.is_ok()]
+    if not okp:
+        raise Refuse('decode_signature has no Ok path')
+    item_requirements(A, prog, 'decode_signature', paths, okp, lambda p: ('leaf', 'jws_signature'), lambda t: t == ('leaf', 'payload'),
+                      lambda p: p.payload())
 
     # ---------------------------------------------------------------------------------------------------- expand_payload
     f = prog.one(r'decoder::<impl at [^>]*>::expand_payload$')
@@ -284,24 +324,35 @@ def run(ctx, prog):
             return None
         A.require('decode_%s/envelope-fields-as-received' % which, okf, r_json, replay=REPLAY)
 
-    cl = [g for g in prog.funcs if re.search(r'decoder::<impl at [^>]*>::next::\{closure#0\}$', g.name)]
-    if len(cl) != 1:
-        raise Refuse('general iterator closure not found')
-    paths, ex = A.paths(cl[0])
+    # the general iterator: every item it yields obeys the same item requirements, with payload := the iterator's payload and
+    # signature record := what the signatures iterator handed out (decode_signature* and the closure are inlined)
+    f = prog.one(r'decoder::<impl at [^>]*>::next$', sig=r'JwsValidationIter')
+    paths, ex = A.paths(f, inline=r'decoder::<impl at [^>]*>::(decode_signature\w*|next::\{closure#\d+\})$|(^|::)extract_b64$')
+    ii = prog.structs['JwsValidationIter']
 
-    def r_iter(p):
-        # rustc prints only the first capture of a disjoint-capture closure; the captured places are identified
-        # through the closure's debug info (`self__payload => (*(_1.N: &[u8]))`)
-        t = strip(p.term())
-        raw = cl[0].debug_raw.get('self__payload', '')
-        m = re.search(r'_1\.(\d+):', raw)
-        if t[0] == 'app' and re.search(r'decode_signature$', t[1]) and m:
-            pay, sg = strip(t[2][1]), strip(t[2][2])
-            fp = field_path(pay)
-            if sg == ('leaf', 'signature') and fp and fp[1] and fp[1][-1][1] == int(m.group(1)):
-                return None
-        return 'general iterator does not decode each signature over the shared payload: %s' % term_str(t)[:200]
-    A.require('decode_general/each-signature-over-shared-payload', [p for p in paths if p.kind == 'return'], r_iter, replay=REPLAY)
+    def it_sig(p):
+        nx = [c for c in p.find_calls(r'IntoIter<.*JwsSignature.*Iterator>::next$')]
+        if len(nx) != 1:
+            raise Refuse('general iterator does not draw exactly one signature per item')
+        fp = field_path(strip(nx[0].args[0]))
+        if not fp or fp[0] != 'self' or [i for _, i in fp[1]] != [ii.index('signatures')]:
+            raise Refuse('signature not drawn from the iterator\'s own signatures')
+        return ('field', nx[0].ret, 0, 'Some')
+
+    def it_pay(t):
+        fp = field_path(t)
+        return bool(fp) and fp[0] == 'self' and [i for _, i in fp[1]] == [ii.index('payload')]
+
+    def it_item(p):
+        v = p.val
+        if not (isinstance(v, VAgg) and v.variant == 'Some' and isinstance(v.fields[0], VAgg) and v.fields[0].variant == 'Ok'):
+            raise Refuse('iterator result %r' % (v,))
+        return v.fields[0].fields[0]
+    oki = [p for p in paths if p.kind == 'return' and isinstance(p.val, VAgg) and p.val.variant == 'Some'
+           and isinstance(p.val.fields[0], VAgg) and p.val.fields[0].variant == 'Ok']
+    if not oki:
+        raise Refuse('general iterator has no path yielding an item')
+    item_requirements(A, prog, 'decode_general/item', paths, oki, it_sig, it_pay, it_item)
 
     # ----------------------------------------------------------------------------------------------------------- verify
     f = prog.one(r'decoder::<impl at [^>]*>::verify$')
